@@ -16,7 +16,7 @@ static void vb_seg_write_sym(struct AbstractFile *f, const char *s, int64_t n)
 static int64_t vb_seg_read_prep(struct AbstractFile *f, int64_t n)
 {
     if (n + f->g > f->fileSize) { n = f->fileSize - f->g; f->rdstate = IOS_eofbit | IOS_failbit; }
-    else f->rdstate = IOS_goodbit;
+    else if (n > 0) f->rdstate = IOS_goodbit;
     if (n < 0) n = 0;
     return n;
 }
